@@ -14,11 +14,21 @@ _path_cache: Dict[Tuple[int, str, tuple], List[State]] = {}
 
 
 def paths(repo: Repo, fn: FunctionInfo, bind: Optional[Dict[str, Term]] = None,
-          loop_unroll: int = 1) -> List[State]:
+          loop_unroll: int = 1, keep: Optional[Iterable[str]] = None) -> List[State]:
+    """Symbolic paths of ``fn``.  With ``keep`` (a collection of function / method NAMES, may be
+    empty) the evaluation INLINES the helpers fn calls — module-level repository functions and
+    methods of the same object — except those named in ``keep`` (the calls the rule wants to
+    see as calls): extracting a block into a helper, or calling a shared helper instead of a
+    copy-pasted block, then gives the same events and terms as the block written in place."""
+    keep_t = None if keep is None else tuple(sorted(keep))
     key = (id(repo), fn.qualname + ('#s' if fn.kind == 'setter' else ''),
-           tuple(sorted((bind or {}).items())) + (loop_unroll,))
+           tuple(sorted((bind or {}).items())) + (loop_unroll, keep_t))
     if key not in _path_cache:
-        _path_cache[key] = Evaluator(repo, fn, bind, loop_unroll=loop_unroll).run()
+        inline = None
+        if keep_t is not None:
+            def inline(fi, _k=set(keep_t)):
+                return fi.name not in _k and not fi.name.startswith('__')
+        _path_cache[key] = Evaluator(repo, fn, bind, loop_unroll=loop_unroll, inline=inline).run()
     return _path_cache[key]
 
 
